@@ -298,7 +298,7 @@ class BListCheck(object):
 
 
 def run(ctx):
-    n = {'quick': 2500, 'thorough': 25000}[ctx.tier]
+    n = {'quick': 2500, 'thorough': 75000}[ctx.tier]
     explore(ctx, Check(), n, 'pq')
     explore(ctx, BListCheck(), n, 'blist')
     # the really large queue, default tuning
